@@ -928,6 +928,7 @@ def _density(shape, obs, res):
 
     acc = obs["accepted"]
     C, E, K, good, W, F = obs["C"][acc], obs["E"][acc], obs["k"][acc], obs["good"][acc], obs["wacc"][acc], obs["f"][acc]
+    Hbox = obs["H"][acc]
     out = dict(judged=0, skipped=0, spread=None, bad=None)
     if not good.any():
         return out
@@ -950,7 +951,7 @@ def _density(shape, obs, res):
         inv[ok] = np.linalg.inv(gr[ok])
         pinv[sel, :kk, :] = np.einsum("mil,mlj->mij", inv, Eh)
     usable = good & (vol > 0)
-    rad = np.linalg.norm(np.abs(E).sum(axis=1), axis=1)
+    rad = np.maximum(np.linalg.norm(np.abs(E).sum(axis=1), axis=1), np.linalg.norm(Hbox, axis=1))
     tree = cKDTree(C)
     rmax = float(rad.max())
     scale = float(np.max(C.max(axis=0) - C.min(axis=0))) or 1.0
@@ -967,7 +968,10 @@ def _density(shape, obs, res):
         on = resid <= 1e-7 * scale
         inside = on & (amax < 1 - 1e-6)
         edge = on & (amax >= 1 - 1e-6) & (amax <= 1 + 1e-6)
-        if edge.any() or not usable[cand[inside]].all():
+        # boxes without a reliable parallelotope (cut, at the end of an input range, creased):
+        # their containment box decides whether they may cover the point
+        rough = ~usable[cand] & np.all(np.abs(dx) <= Hbox[cand] * (1 + 1e-9) + 1e-12, axis=1)
+        if edge.any() or rough.any() or not usable[cand[inside]].all():
             out["skipped"] += 1
             continue
         cv = cand[inside]
@@ -1111,7 +1115,8 @@ def run_continuous(item):
         if zs:
             fixed = pts[nonm].copy()
             fixed[:, 2] = zs[0]
-            if (M.classify(shape, fixed, 1e-7 * scale, 1e-7 * scale) == 1).all():
+            cz = M.classify(shape, fixed, 1e-7 * scale, 1e-7 * scale)
+            if (cz != 0).all() and (cz == 1).any():
                 detail = "z"
         p = pts[nonm[0]]
         viol(f"nonmember:{sig}:{detail}", f"{len(nonm)} of {len(pts)} produced points are not in the region, e.g. {tuple(round(float(x), 6) for x in p)} (expected z in {zs})" if zs else f"{len(nonm)} of {len(pts)} produced points are not in the region, e.g. {tuple(round(float(x), 6) for x in p)}")
